@@ -13,6 +13,7 @@ CHECKS = {
     'C01': 'checks_sem.check_c01',
     'C02': 'checks_sem.check_c02',
     'C11': 'checks_sem.check_c11',
+    'C03': 'checks_text.check_c03',
     'C04': 'checks_wire.check_c04',
     'C05': 'checks_wire.check_c05',
     'C06': 'checks_wire.check_c06',
